@@ -32,19 +32,35 @@ Definition or_insert_wf (f : fn_def) (lock : string) : bool :=
   | _ => false
   end.
 
+(* both shard selectors: hash the WHOLE key with the map's hasher, mask with the shard count *)
 Definition shard_index_wf (f : fn_def) : bool :=
-  existsb (fun e => match e with
-                    | ELetS (PIdent _ None)
-                        (Some (EBinary "&" (ECast (EMethod (EPath ["hasher"]) "finish" []) _)
-                                 (EBinary "-" (EMethod (EField (EPath ["self"]) "shards") "len" []) (ELit (LInt 1%N))))) None => true
-                    | _ => false
-                    end) (fn_body f)
-  && existsb (fun e => match e with ESemi (EMethod (EPath ["key"]) "hash" _) => true | _ => false end) (fn_body f).
+  match fn_body f with
+  | [ELetS (PIdent "hasher" None) (Some (EMethod (EField (EPath ["self"]) "hash_builder") "build_hasher" [])) None;
+     ESemi (EMethod (EPath ["key"]) "hash" [ERef (EPath ["hasher"])]);
+     ELetS (PIdent i None)
+       (Some (EBinary "&" (ECast (EMethod (EPath ["hasher"]) "finish" []) _)
+                (EBinary "-" (EMethod (EField (EPath ["self"]) "shards") "len" []) (ELit (LInt 1%N))))) None;
+     ERef (EIndex (EField (EPath ["self"]) "shards") (EPath [i']))] => String.eqb i i'
+  | _ => false
+  end.
 
 Definition take_wf (f : fn_def) : bool :=
   match fn_body f with
   | [ELetS (PIdent k None) (Some (ECall (EPath ["BorrowedKey"; "new_with"]) [EPath ["id"]; EPath ["type_id"]])) None;
      EMethod _ "remove" [ECast (ERef (EPath [k'])) _]] => String.eqb k k'
+  | _ => false
+  end.
+(* the sharded take looks in the shard of that very key *)
+Definition take_uses_shard_of_key (f : fn_def) : bool :=
+  match fn_body f with
+  | [ELetS (PIdent k None) _ None;
+     EMethod (EMethod (EField (EMethod (EPath ["self"]) "get_shard_mut" [EPath [k']]) "0") "get_mut" []) "remove" _] =>
+    String.eqb k k'
+  | _ => false
+  end.
+Definition remove_is_take (f : fn_def) : bool :=
+  match fn_body f with
+  | [EMethod (EMethod (EPath ["self"]) "take" [EPath ["id"]; EPath ["type_id"]]) "is_some" []] => true
   | _ => false
   end.
 
@@ -54,6 +70,9 @@ Lemma maps_as_modelled :
   or_insert_wf Gen.CacheMap.AssetMap_insert "write" = true /\
   take_wf Gen.CacheMap.AssetMap_take = true /\
   shard_index_wf Gen.CacheMap.AssetMap_get_shard = true /\
+  shard_index_wf Gen.CacheMap.AssetMap_get_shard_mut = true /\
+  take_uses_shard_of_key Gen.CacheMap.AssetMap_take = true /\
+  remove_is_take Gen.CacheMap.AssetMap_remove = true /\
   keyed_lookup Gen.LocalMap.AssetMap_get "borrow" "get" = true /\
   keyed_lookup Gen.LocalMap.AssetMap_contains_key "borrow" "contains_key" = true /\
   or_insert_wf Gen.LocalMap.AssetMap_insert "borrow_mut" = true /\
